@@ -658,16 +658,22 @@ impl S3 for FileSystem {
             }
 
             let start: u64 = parts[0].parse().map_err(|_| s3_error!(InvalidArgument))?;
-            let mut end = file_len - 1;
-            if parts[1].is_empty().not() {
-                end = parts[1].parse().map_err(|_| s3_error!(InvalidArgument))?;
+            let last: u64 = if parts[1].is_empty() {
+                // to the end of the source; an empty source has no last byte
+                file_len.checked_sub(1).ok_or_else(|| s3_error!(InvalidRange))?
+            } else {
+                parts[1].parse().map_err(|_| s3_error!(InvalidArgument))?
+            };
+            if start > last {
+                return Err(s3_error!(InvalidRange));
             }
-            (start, end)
+            (start, last.saturating_add(1))
         } else {
-            (0, file_len - 1)
+            // the whole source, which may be empty
+            (0, file_len)
         };
 
-        let content_length = end - start + 1;
+        let content_length = end - start;
         let content_length_usize = try_!(usize::try_from(content_length));
 
         let _ = try_!(src_file.seek(io::SeekFrom::Start(start)).await);
